@@ -9,6 +9,7 @@ CONSTANTS CHUNK,        \* window size C of the model
           SolidSizes, ChunkSizes,
           Fix,          \* "orig" | "clear"  (which variant of SetPosition the model mirrors)
           SeekKinds,    \* subset of BOOLEAN: seekable / non-seekable stream buffers
+          PastEndKinds, \* subset of BOOLEAN: buffers that accept a position beyond their end (files) / refuse it (strings)
           KeepHist,     \* TRUE: carry the history (path mode, for generation)
           TolerateNonSeekable  \* TRUE: Dev_NonSeekableStream is a tolerated, named deviation
 
@@ -19,8 +20,9 @@ vars == <<m, a, last, hist, n>>
 NoOp == [op |-> "init", arg |-> 0, ok |-> TRUE, dev |-> "", res |-> 0]
 
 Init ==
-  /\ \E len \in 0..MAXLEN, sk \in SeekKinds :
-        /\ m = MInit(len, sk, CHUNK)
+  /\ \E len \in 0..MAXLEN, sk \in SeekKinds, pe \in PastEndKinds :
+        /\ (pe => sk)
+        /\ m = MInit(len, sk, pe, CHUNK)
         /\ a = [len |-> len, pos |-> 0, C |-> CHUNK]
   /\ last = NoOp
   /\ hist = <<>>
@@ -46,7 +48,7 @@ DoSolid    == Live /\ \E k \in SolidSizes : LET rm == MReadSolidBlock(m, k) ra =
 DoChunks   == Live /\ \E k \in ChunkSizes : LET rm == MReadByChunks(m, k) IN
                  LET ra == [a |-> [a EXCEPT !.pos = @ + rm.res.n], res |-> rm.res] IN
                  Step("chunks", k, rm, ra, AReadByChunksOK(a, k, rm.res), "")
-DoSetPos   == Live /\ \E p \in 0..(a.len + 1) : LET rm == MSetPosition(m, p, Fix) ra == ASetPosition(a, p) IN
+DoSetPos   == Live /\ \E p \in 0..(a.len + 2) : LET rm == MSetPosition(m, p, Fix) ra == ASetPosition(a, p) IN
                  Step("setpos", p, rm, ra, rm.res = ra.res,
                       IF rm.res # ra.res /\ NonSeekableCase(p) THEN "Dev_NonSeekableStream" ELSE "")
 
@@ -64,5 +66,5 @@ WellFormed     == MWellFormed(m)
 
 \* Path-mode export: one JSON object per complete behaviour
 Export == (KeepHist /\ n = MAXOPS) =>
-            PrintT(<<"GEN", ToJson([len |-> a.len, seekable |-> m.st.seekable, chunk |-> CHUNK, ops |-> hist])>>)
+            PrintT(<<"GEN", ToJson([len |-> a.len, seekable |-> m.st.seekable, pastend |-> m.st.pastend, chunk |-> CHUNK, ops |-> hist])>>)
 =============================================================================
